@@ -5,11 +5,18 @@ open Gallia Gallia.Proto Gallia.Lifecycle
 
 /-
   line protocol
-    run  <quirks:4 bits> <kind> <lock art db hooks:4 bits> <pre> <dbopen> <setup> <main> <tdPre> <tdPost> <post>   -> final
-    spec <kind> <4 bits> <pre> <dbopen> <setup> <main> <tdPre> <tdPost> <post> | <final>                           -> ok | clause,clause
-    code <kind> <setup> <main> <tdPre> <tdPost>                                                          -> expected exit code
-  pre/dbopen/post : ok | fail          ev : ok | exit:<n> | exitx | conn | uds | other | kbd | cancel
+    run  <quirks:5 bits> <world> <kind> <cfg:8 bits> <script:18 words>             -> final
+    spec <world> <kind> <cfg:8 bits> <script:18 words> | <final>                   -> ok | clause,clause
+    code <kind> <cfg:8 bits> <script:18 words>                                     -> expected exit code of a run that starts
+    start <world> <kind> <cfg:8 bits>                                              -> noLock | noArtDir | started
+  cfg bits : lock art db hooks power dumpcap tp props
+  script   : pre dbopen power dumpcap connect ecuConnect tpStart propsPre setup main tdPre propsPost tpStop ecuClose close
+             dcStop tdPost post
+             pre/dbopen/post : ok | fail     dumpcap : started | none | missing | sync
+             every other word: ok | exit:<n> | exitx | conn | uds | other | kbd | cancel
+  world    : lock=<free|busy|broken|interrupted>;base=<0|1>;now=<n>;runs=<- | name:tag/name:tag ...>;latest=<-|n>      (tag '-' = no META.json)
   final    : exit=.. meta=.. db=.. dbclosed=.. logclosed=.. lock=.. pre=.. post=.. reports=.. tclosed=.. trace=..
+             tpstopped=.. dcstopped=.. waited=.. artdir=.. runs=.. latest=..
 -/
 
 def bit (c : Char) : Option Bool := if c == '1' then some true else if c == '0' then some false else none
@@ -42,31 +49,81 @@ def parseFail : String → Option Bool
 def parseCfg (k bits : String) : Option Cfg := do
   let kind ← parseKind k
   match bits.toList with
-  | [a, b, c, d] => some { kind, lock := ← bit a, art := ← bit b, db := ← bit c, hooks := ← bit d }
+  | [a, b, c, d, e, f, g, h] =>
+    some { kind, lock := ← bit a, art := ← bit b, db := ← bit c, hooks := ← bit d, power := ← bit e, dumpcap := ← bit f,
+           tp := ← bit g, props := ← bit h }
   | _ => none
 
 def parseQuirks (bits : String) : Option Quirks :=
   match bits.toList with
-  | [a, b, c, d] => do
-    some { hookUnbound := ← bit a, scannerDisconnect := ← bit b, cancelUnmapped := ← bit c, dbOpenUnguarded := ← bit d }
+  | [a, b, c, d, e] => do
+    some { hookUnbound := ← bit a, scannerDisconnect := ← bit b, cancelUnmapped := ← bit c, dbOpenUnguarded := ← bit d,
+           mkdirExistOk := ← bit e }
+  | _ => none
+
+def parseDumpcap : String → Option Dumpcap
+  | "started" => some .started
+  | "none" => some .notStarted
+  | "missing" => some .missing
+  | "sync" => some .syncFails
   | _ => none
 
 def parseScript : List String → Option Script
-  | [p, o, a, b, c, d, q] => do
-    some { preFails := ← parseFail p, dbFails := ← parseFail o, setup := ← parseEv a, main := ← parseEv b, tdPre := ← parseEv c,
+  | [p, o, pw, dc, cn, ec, ts, pp, a, b, c, pq, tq, e1, e2, ds, d, q] => do
+    some { preFails := ← parseFail p, dbFails := ← parseFail o, power := ← parseEv pw, dumpcap := ← parseDumpcap dc,
+           connect := ← parseEv cn, ecuConnect := ← parseEv ec, tpStart := ← parseEv ts, propsPre := ← parseEv pp,
+           setup := ← parseEv a, main := ← parseEv b, tdPre := ← parseEv c, propsPost := ← parseEv pq,
+           tpStop := ← parseEv tq, ecuClose := ← parseEv e1, close := ← parseEv e2, dcStop := ← parseEv ds,
            tdPost := ← parseEv d, postFails := ← parseFail q }
+  | _ => none
+
+def kv (key : String) (tok : String) : Option String :=
+  match tok.splitOn "=" with
+  | [k, v] => if k == key then some v else none
+  | _ => none
+
+def optNatP (s : String) : Option (Option Nat) :=
+  if s == "-" then some none else s.toNat?.map some
+
+def parseRuns (s : String) : Option (List RunDir) :=
+  if s == "-" then some [] else
+  (s.splitOn "/").mapM fun r => match r.splitOn ":" with
+    | [n, t] => do some { name := ← n.toNat?, metaTag := ← optNatP t }
+    | _ => none
+
+def optNatS : Option Nat → String
+  | none => "-"
+  | some n => toString n
+
+def showRuns (rs : List RunDir) : String :=
+  if rs.isEmpty then "-" else "/".intercalate (rs.map fun r => s!"{r.name}:{optNatS r.metaTag}")
+
+def parseWorld (s : String) : Option World :=
+  match s.splitOn ";" with
+  | [l, b, n, r, la] => do
+    let lock ← match ← kv "lock" l with
+      | "free" => some LockEnv.free
+      | "busy" => some LockEnv.busy
+      | "broken" => some LockEnv.broken
+      | "interrupted" => some LockEnv.interrupted
+      | _ => none
+    let baseOk ← match ← kv "base" b with
+      | "1" => some true
+      | "0" => some false
+      | _ => none
+    some { lock, baseOk, now := ← (← kv "now" n).toNat?, runs := ← parseRuns (← kv "runs" r),
+           latest := ← optNatP (← kv "latest" la) }
   | _ => none
 
 def b01 (b : Bool) : String := if b then "1" else "0"
 
-def showAct : Act → String
-  | .pre => "pre" | .connect => "connect" | .setup => "setup" | .main => "main"
-  | .tdPre => "tdPre" | .close => "close" | .tdPost => "tdPost" | .post => "post"
+def showAct (a : Act) : String := a.name
 
-def parseAct : String → Option Act
-  | "pre" => some .pre | "connect" => some .connect | "setup" => some .setup | "main" => some .main
-  | "tdPre" => some .tdPre | "close" => some .close | "tdPost" => some .tdPost | "post" => some .post
-  | _ => none
+def allActs : List Act :=
+  [.pre, .power, .dumpcap, .connect, .ecuConnect, .tpStart, .propsPre, .setup, .main, .tdPre, .propsPost, .tpStop, .close,
+   .dcStop, .tdPost, .post]
+
+def parseAct (s : String) : Option Act := allActs.find? fun a => a.name == s
 
 def showHook : Hook → String
   | .pre => "pre" | .post => "post"
@@ -77,6 +134,8 @@ def showFinal (f : Final) : String :=
     | .escCancelled => "esc:cancelled"
     | .escHook => "esc:hook"
     | .escDb => "esc:db"
+    | .escArt => "esc:art"
+    | .escLockWait => "esc:lockwait"
   let mf := match f.metaFile with
     | none => "none"
     | some m => s!"{m.exit}:{m.start}:{m.stop}"
@@ -90,12 +149,7 @@ def showFinal (f : Final) : String :=
   let reports := if f.reports.isEmpty then "-" else ",".intercalate (f.reports.map showHook)
   let trace := if f.trace.isEmpty then "-" else
     ",".intercalate (f.trace.map fun o => s!"{showAct o.act}{b01 o.lockHeld}{b01 o.metaExists}")
-  s!"exit={exit} meta={mf} db={db} dbclosed={b01 f.dbClosed} logclosed={b01 f.logClosed} lock={b01 f.lockReleased} pre={b01 f.preRan} post={post} reports={reports} tclosed={b01 f.transportClosed} trace={trace}"
-
-def kv (key : String) (tok : String) : Option String :=
-  match tok.splitOn "=" with
-  | [k, v] => if k == key then some v else none
-  | _ => none
+  s!"exit={exit} meta={mf} db={db} dbclosed={b01 f.dbClosed} logclosed={b01 f.logClosed} lock={b01 f.lockReleased} pre={b01 f.preRan} post={post} reports={reports} tclosed={b01 f.transportClosed} trace={trace} tpstopped={b01 f.tpStopped} dcstopped={b01 f.dcStopped} waited={b01 f.waited} artdir={optNatS f.artDir} runs={showRuns f.runs} latest={optNatS f.latest}"
 
 def parseBool : String → Option Bool
   | "1" => some true
@@ -111,13 +165,15 @@ def parseObs (s : String) : Option Obs :=
   | _ => none
 
 def parseFinal : List String → Option Final
-  | [e, m, d, dc, lc, lk, pr, po, rp, tc, tr] => do
+  | [e, m, d, dc, lc, lk, pr, po, rp, tc, tr, tps, dcs, wt, ad, rn, la] => do
     let e ← kv "exit" e
     let exit ← match e.splitOn ":" with
       | ["ret", n] => n.toNat?.map Outcome.ret
       | ["esc", "cancelled"] => some .escCancelled
       | ["esc", "hook"] => some .escHook
       | ["esc", "db"] => some .escDb
+      | ["esc", "art"] => some .escArt
+      | ["esc", "lockwait"] => some .escLockWait
       | _ => none
     let m ← kv "meta" m
     let metaFile ← match m.splitOn ":" with
@@ -146,24 +202,41 @@ def parseFinal : List String → Option Final
     some { exit, metaFile, dbRow, dbClosed := ← parseBool (← kv "dbclosed" dc),
            logClosed := ← parseBool (← kv "logclosed" lc), lockReleased := ← parseBool (← kv "lock" lk),
            preRan := ← parseBool (← kv "pre" pr), postEnv, reports,
-           transportClosed := ← parseBool (← kv "tclosed" tc), trace }
+           transportClosed := ← parseBool (← kv "tclosed" tc), trace,
+           tpStopped := ← parseBool (← kv "tpstopped" tps), dcStopped := ← parseBool (← kv "dcstopped" dcs),
+           waited := ← parseBool (← kv "waited" wt), artDir := ← optNatP (← kv "artdir" ad),
+           runs := ← parseRuns (← kv "runs" rn), latest := ← optNatP (← kv "latest" la) }
   | _ => none
+
+def splitBar : List String → List String × List String
+  | [] => ([], [])
+  | "|" :: rest => ([], rest)
+  | x :: rest => let r := splitBar rest; (x :: r.1, r.2)
 
 def step (line : String) : String :=
   match words line with
-  | "run" :: q :: k :: bits :: script =>
-    match parseQuirks q, parseCfg k bits, parseScript script with
-    | some q, some c, some s => showFinal (entryPointQ q c s)
-    | _, _, _ => "bad-op"
-  | "spec" :: k :: bits :: p :: o :: a :: b :: c :: d :: q :: "|" :: fin =>
-    match parseCfg k bits, parseScript [p, o, a, b, c, d, q], parseFinal fin with
-    | some cfg, some s, some f =>
-      let v := Spec.violations cfg s f
+  | "run" :: q :: w :: k :: bits :: script =>
+    match parseQuirks q, parseWorld w, parseCfg k bits, parseScript script with
+    | some q, some w, some c, some s => showFinal (entryPointW q w c s)
+    | _, _, _, _ => "bad-op"
+  | "spec" :: w :: k :: bits :: rest =>
+    let (script, fin) := splitBar rest
+    match parseWorld w, parseCfg k bits, parseScript script, parseFinal fin with
+    | some w, some cfg, some s, some f =>
+      let v := Spec.violationsW w cfg s f
       if v.isEmpty then "ok" else ",".intercalate v
-    | _, _, _ => "bad-op"
-  | ["code", k, a, b, c, d] =>
-    match parseKind k, parseScript ["ok", "ok", a, b, c, d, "ok"] with
-    | some kind, some s => toString (Spec.exitOf kind (Spec.raised s))
+    | _, _, _, _ => "bad-op"
+  | "code" :: k :: bits :: script =>
+    match parseCfg k bits, parseScript script with
+    | some c, some s => toString (Spec.code c s)
+    | _, _ => "bad-op"
+  | ["start", w, k, bits] =>
+    match parseWorld w, parseCfg k bits with
+    | some w, some c => match Spec.startOf w c with
+      | .noLock => "noLock"
+      | .lockWaitInterrupted => "lockWaitInterrupted"
+      | .noArtDir => "noArtDir"
+      | .started => "started"
     | _, _ => "bad-op"
   | _ => "bad-op"
 
